@@ -36,6 +36,8 @@ class CallMixin:
                 if not normal(s2):
                     out.append((s2, None))
                     continue
+                if isinstance(loc, SV) and self.dict_place(loc) is not None:
+                    loc = self.dict_place(loc)
                 probe = loc if isinstance(loc, Place) else loc
                 is_cont = isinstance(probe, Place) or (
                     isinstance(probe, SV) and (isinstance(probe.ty, (TSeq, TMap)) or (
@@ -137,6 +139,14 @@ class CallMixin:
                 return self.construct(st, fn.data, args, kw, node)
             if k == 'classattr':
                 cls, name = fn.data
+                if cls == 'builtin:dict' and name == '__init__' and args:
+                    # dict.__init__(self): the mapping part of a dict-derived object starts empty
+                    me = self.need_value(args[0])
+                    dp = self.dict_place(me)
+                    if dp is not None:
+                        fld = dp.root[2][1]
+                        self.write_field(st, me, me.ty.cls, fld, SV(TMap(TBottom, TBottom), None), node)
+                    return [(st, NONE)]
                 if cls.startswith('builtin:') and name == '__init__':
                     return [(st, NONE)]
                 if not args:
@@ -829,6 +839,21 @@ class CallMixin:
             return [(st, NONE)]
         if op == 'remove':
             e = sunit(cont.ty.elem, box(coerce(args[0], cont.ty.elem, self.classes)))
+            if self.catches(st, 'builtin:ValueError'):
+                # inside try / except ValueError: a real fork
+                outs = []
+                b = st.copy()
+                b.assume(z3.Not(z3.Contains(cont.t, e)))
+                if self.feasible(b):
+                    self.raise_builtin(b, 'builtin:ValueError', node)
+                    outs.append((b, None))
+                st.assume(z3.Contains(cont.t, e))
+                if not self.feasible(st):
+                    return outs
+                i = z3.IndexOf(cont.t, e, 0)
+                n = z3.Length(cont.t)
+                self.write_place(st, pl, SV(cont.ty, z3.Concat(z3.SubSeq(cont.t, 0, i), z3.SubSeq(cont.t, i + 1, n - i - 1))), node)
+                return outs + [(st, NONE)]
             self.oblige(st, z3.Contains(cont.t, e), 'safety', 'remove-missing', node=node,
                         info={'claim': 'list.remove(x): x is in the list (ValueError)'})
             i = z3.IndexOf(cont.t, e, 0)
